@@ -622,7 +622,7 @@ def u_ac(ctx):
     acts = [("discrete", 2), ("multidiscrete", (2, 3)), ("multibinary", 2), ("box", 1), ("discrete", 5),
             ("multidiscrete", (3, 2, 2)), ("multibinary", 3), ("box", 3), ("multibinary", 1), ("box", 2),
             ("discrete", 3), ("multidiscrete", (4,))]
-    n = ctx.n(30, 180)
+    n = ctx.n(24, 180)
     with _Scratch() as T:
         for i in range(n):
             spec = dict(nS=int(ctx.rng.integers(2, 8)), act=acts[i % len(acts)],
@@ -639,7 +639,7 @@ def u_ac_spaces(ctx):
     act_spaces = [("space", ("box", (), -1.0, 1.0)), ("space", ("multibinary", (2, 2))),
                   ("space", ("box", (2, 2), -1.0, 1.0)), ("space", ("box", (2,), -np.inf, np.inf)),
                   ("discrete", 3), ("box", 2), ("multidiscrete", (2, 2))]
-    n = ctx.n(28, 168)
+    n = ctx.n(22, 168)
     with _Scratch() as T:
         for i in range(n):
             act = act_spaces[i % len(act_spaces)]
@@ -653,7 +653,7 @@ def u_ac_spaces(ctx):
 def u_q(ctx):
     from lerax.policy import MLPQPolicy as C
 
-    n = ctx.n(26, 180)
+    n = ctx.n(22, 180)
     with _Scratch() as T:
         for i in range(n):
             obs = _OBS_FINITE[i % 3] if i % 2 == 0 else _OBS_SPACES[(i // 2) % len(_OBS_SPACES)]
@@ -668,7 +668,7 @@ def u_sac(ctx):
 
     acts = [("box", 1), ("box", 2), ("space", ("box", (), -2.0, 0.5)), ("box", 3),
             ("space", ("box", (2,), (-1.0, 0.0), (1.0, 5.0)))]
-    n = ctx.n(25, 180)
+    n = ctx.n(22, 180)
     with _Scratch() as T:
         for i in range(n):
             obs = _OBS_FINITE[i % 3] if i % 3 != 2 else _OBS_SPACES[(i // 3) % len(_OBS_SPACES)]
@@ -785,7 +785,7 @@ def _mismatch_pairs(ctx, family):
     bases = []  # (regime, spec, kw)
     for j, act in enumerate(acts(3)):
         bases.append(("generic", dict(nS=4, act=act, obs=_OBS_FINITE[j % 3]), dict(generic)))
-    for u in (1, 2, 3, 4):
+    for u in (3, 4, 2, 1):
         for d in (1, 2, 3):
             for j, act in enumerate(acts(u)):
                 kw = {a: u for a in size_args}
